@@ -365,12 +365,19 @@ func (h *panicHook) Fire(e *logrus.Entry) error {
 		h.mu.Unlock()
 	}
 	if h.wire && strings.HasSuffix(e.Message, "failed to be uploaded to S3") {
+		// (a POSITIVE list of plumbing failures: any other error the worker reports for an attempt - also
+		// one it has mangled itself - is behaviour of the code under test and stays in the case)
 		if err, ok := e.Data[logrus.ErrorKey].(error); ok && !strings.Contains(err.Error(), scriptedFailure) {
-			h.mu.Lock()
-			if h.infra == "" {
-				h.infra = "the worker saw an unscripted error: " + strings.SplitN(err.Error(), "\n", 2)[0]
+			for _, plumbing := range []string{"RequestError", "SerializationError", "connection refused", "connection reset", "dial tcp", "EOF", "NoCredentialProviders", "i/o timeout"} {
+				if strings.Contains(err.Error(), plumbing) {
+					h.mu.Lock()
+					if h.infra == "" {
+						h.infra = "the worker saw an unscripted error: " + strings.SplitN(err.Error(), "\n", 2)[0]
+					}
+					h.mu.Unlock()
+					break
+				}
 			}
-			h.mu.Unlock()
 		}
 	}
 	return nil
